@@ -16,8 +16,8 @@ unsigned long g_consumed;
 unsigned long g_last_varint;
 _Bool g_skip_negative;
 unsigned long nondet_u64(void);
-unsigned long g_written; unsigned long g_remaining, g_stream_off, g_str_src_off; _Bool g_str_in_order;
-static void vf_havoc_ghosts(void) { g_consumed = nondet_u64(); g_skip_negative = 0; g_written = nondet_u64(); g_remaining = nondet_u64(); g_stream_off = nondet_u64(); g_str_src_off = g_stream_off; g_str_in_order = 1; }
+unsigned long g_scalar; unsigned long g_written; unsigned long g_remaining, g_stream_off, g_str_src_off; _Bool g_str_in_order;
+static void vf_havoc_ghosts(void) { g_consumed = nondet_u64(); g_skip_negative = 0; g_written = nondet_u64(); g_remaining = nondet_u64(); g_stream_off = nondet_u64(); g_str_src_off = g_stream_off; g_str_in_order = 1; g_scalar = nondet_u64(); }
 
 _Bool CodedInputStream_ReadVarint64(struct CodedInputStream *self, unsigned long *value)
 __CPROVER_requires(__CPROVER_w_ok(value, sizeof(*value)))
@@ -104,4 +104,32 @@ size_t StringTraits_calculate_serialized_size(struct String *value)
 __CPROVER_assigns()
 __CPROVER_ensures(__CPROVER_return_value == g_str_len)
 ;
+
+/* ---- scalar traits (bool, int8_t, int32_t: varint32 of the value converted to uint32_t; int64_t: varint64): for EVERY value of the
+ * type the predicted size is the number of bytes serialize writes, serialize writes exactly the converted value, and deserialize of
+ * what serialize wrote gives the value back (the conversion round trip T -> unsigned -> T is the identity, incl. negative values,
+ * which are written as 32-bit two's complement: 5 bytes, babylon's own encoding) */
+extern unsigned long g_scalar;      /* an arbitrary value of the type (as bits): the one a matching serialize call would have written */
+void CodedOutputStream_WriteVarint32(struct CodedOutputStream *os, unsigned int v) { g_written += spec_varint_len(v); g_w_last = v; }
+_Bool CodedInputStream_ReadVarint32(struct CodedInputStream *self, unsigned int *value)
+__CPROVER_requires(__CPROVER_w_ok(value, sizeof(*value)))
+__CPROVER_assigns(*value, g_consumed, g_last_varint)
+__CPROVER_ensures(__CPROVER_return_value ? (g_consumed == __CPROVER_old(g_consumed) + spec_varint_len(*value) && g_last_varint == *value) : g_consumed >= __CPROVER_old(g_consumed))
+;
+#define SCALAR_CONTRACTS(NAME, CT, UT) \
+size_t NAME##_calculate_serialized_size(CT *value) \
+__CPROVER_requires(__CPROVER_is_fresh(value, sizeof(*value))) __CPROVER_assigns() \
+__CPROVER_ensures(__CPROVER_return_value == spec_varint_len((UT)*value)); \
+void NAME##_serialize(CT *value, struct CodedOutputStream *os) \
+__CPROVER_requires(__CPROVER_is_fresh(value, sizeof(*value)) && g_written < (1UL << 60)) __CPROVER_assigns(g_written, g_w_last) \
+__CPROVER_ensures(g_written == __CPROVER_old(g_written) + spec_varint_len((UT)*value) && g_w_last == (UT)*value); \
+_Bool NAME##_deserialize(struct CodedInputStream *is, CT *value) \
+__CPROVER_requires(__CPROVER_is_fresh(value, sizeof(*value)) && g_consumed < (1UL << 60)) __CPROVER_assigns(*value, g_consumed, g_last_varint) \
+__CPROVER_ensures(__CPROVER_return_value ==> (*value == (CT)(UT)g_last_varint && g_consumed == __CPROVER_old(g_consumed) + spec_varint_len(g_last_varint))) \
+__CPROVER_ensures((__CPROVER_return_value && g_last_varint == (unsigned long)(UT)(CT)g_scalar) ==> *value == (CT)g_scalar) \
+__CPROVER_ensures(!__CPROVER_return_value ==> *value == __CPROVER_old(*value));
+SCALAR_CONTRACTS(I32Traits, int32_t, unsigned int)
+SCALAR_CONTRACTS(I8Traits, int8_t, unsigned int)
+SCALAR_CONTRACTS(BTraits, _Bool, unsigned int)
+SCALAR_CONTRACTS(I64Traits, int64_t, unsigned long)
 #endif
